@@ -74,6 +74,7 @@ func (s *Store) AddMessage(message storage.Message) (id string, err error) {
 		date:    message.Date(),
 		subject: message.Subject(),
 	}
+	var evicted []*Message
 	s.withMailbox(message.Mailbox(), true, func(mb *mbox) {
 		// Generate message ID.
 		mb.last++
@@ -86,11 +87,19 @@ func (s *Store) AddMessage(message storage.Message) (id string, err error) {
 		if s.cap > 0 {
 			// Enforce cap.
 			for len(mb.messages) > s.cap {
-				delete(mb.messages, strconv.Itoa(mb.first))
+				oldID := strconv.Itoa(mb.first)
+				if old, ok := mb.messages[oldID]; ok {
+					delete(mb.messages, oldID)
+					evicted = append(evicted, old)
+				}
 				mb.first++
 			}
 		}
 	})
+	// Messages evicted by the cap must leave the size enforcer's accounting too.
+	for _, old := range evicted {
+		s.enforcerRemove(old)
+	}
 	s.enforcerDeliver(m)
 	return id, err
 }
